@@ -93,12 +93,15 @@ func (w *world) Run(t *rt.Tape, trace bool) *core.Result {
 				if p.id != 0 {
 					rt.Sleep(joinDelay[p.id])
 					p.nw, p.joinErr = p2p.Join(ps[0].addr, p.addr, p.id, k)
+					rt.Tracef("HARNESS party %d: Join returned err=%v", p.id, p.joinErr)
 				}
 				if p.joinErr != nil {
 					return
 				}
 				rt.Sleep(connDelay[p.id])
+				rt.Tracef("HARNESS party %d: calling Connect", p.id)
 				p.connectErr = p.nw.Connect()
+				rt.Tracef("HARNESS party %d: Connect returned err=%v with %d peers", p.id, p.connectErr, len(p.nw.Peers))
 				if p.connectErr != nil {
 					return
 				}
@@ -167,6 +170,7 @@ func (w *world) Run(t *rt.Tape, trace bool) *core.Result {
 						}
 					}
 				}
+				rt.Tracef("HARNESS party %d: all tokens exchanged, closing", p.id)
 				p.closeErr = p.nw.Close()
 			})
 		}
